@@ -378,7 +378,37 @@ func GenerateTwins(seed uint64, idFlat, idEmb string) (*sdl.Program, *sdl.Progra
 	return p, &q
 }
 
+// genRace: many components, 1-3 custom scanners, closers - for real-parallel runs under
+// the race detector.
 func genRace(r rng, seed uint64, id string) *sdl.Program {
 	p := &sdl.Program{ID: id, Seed: seed, Family: FamRace, NIfaces: 1}
+	nTypes := r.n(3, 6)
+	target := r.n(8, 60)
+	ni := 0
+	for ti := 0; ti < nTypes; ti++ {
+		t := &sdl.Type{Name: fmt.Sprintf("%sT%d", id, ti), Init: r.p(0.5), Ifaces: []int{0}}
+		if ti == 0 {
+			t.Role = "closer"
+			t.Ifaces = nil
+		}
+		if ti > 0 && r.p(0.6) {
+			t.Points = append(t.Points, &sdl.Point{Field: "F0", Kind: sdl.KIfaces, Iface: 0, Sel: sdl.SelType, Optional: true})
+		}
+		for fi := 0; fi < r.n(0, 2); fi++ {
+			t.Custom = append(t.Custom, &sdl.Custom{Field: fmt.Sprintf("X%d", fi), Tag: pick(r, customTags), Val: "v", Exported: true})
+		}
+		p.Types = append(p.Types, t)
+		cnt := target / nTypes
+		if cnt < 1 {
+			cnt = 1
+		}
+		for j := 0; j < cnt; j++ {
+			p.Instances = append(p.Instances, &sdl.Instance{ID: fmt.Sprintf("c%d", ni), Type: t.Name, Alias: fmt.Sprintf("r%d", ni)})
+			ni++
+		}
+	}
+	for i := 0; i < r.n(1, 3); i++ {
+		p.Scanners = append(p.Scanners, &sdl.Scanner{ID: fmt.Sprintf("scan%d", i), Tag: customTags[i%len(customTags)]})
+	}
 	return p
 }
